@@ -96,6 +96,8 @@ CONVERTERS = {
     # inserted code that behaves differently if the build route compiles with other options (assert / __debug__)
     # inserted code containing braces, percent signs and backslashes (dict / set literals, an f-string, a %-format): inserted as is
     'braces': lambda s: s.code + "\n_k = {'k': 1.5, 'j': {2, 3}}['k'] * len(f'{t:03d}{{}}') + len('%d%%' % t) + len('a\\b')",
+    # inserted code with text that looks like annotations (`name: name = value`, `name: name,`): one-line if, dict of names, lambda, slice
+    'annotation-lookalikes': lambda s: s.code + "\n_a = t\n_b = 0.5\nif _a < 0: _a = 0\n_d = {_a: _b, _b: _a}\n_f = (lambda q: q, _a)\n_s = [1, 2, 3][_a: _a + 1]",
     'guarded': lambda s: s.code + '\nassert t < 0, "guard"',
     'debug-dependent': lambda s: s.code + '\nif __debug__:\n    self._status[t] = "Q"',
 }
@@ -224,6 +226,7 @@ def run_shard(ctx):
     fixed = ['`self._Y[t] = self._Y[t] * 2`\n`self._Y[t] = self._Y[t] * 2`\nY = X', 'Y = X\n```\nself._Y[t] = self._Y[t] + 1\n```\n```\nself._Y[t] = self._Y[t] + 1\n```',
              'Y = X\n```\nself._Y[t] = {"a": 2.0, "b": 3.0}["a"] * self._Y[t] + len(f"{t}{{x}}") + len({1, 2})\n```',
              'Y = X\n```\nassert self._X[t] < 0.0, "X must be negative"\n```', 'Y = X\n```\nif __debug__:\n    self._Y[t] = self._Y[t] + 1\n```',
+             'Y = X\n```\ny: float = self._Y[t]\nif y < 0.5: y = 0.5\nself._Y[t] = {y: y}[y]\n```',
              '', '# only a comment\n', '```\npass\n```', '`x = 1`', '```\nself._Y[t] = 2.0\n```\nY = Y', 'Y = X', 'Y = 1\nZ = Y[-1] + {a} * <e>[1]']
     for i, script in enumerate(fixed):
         if ctx.mine(i):
